@@ -56,6 +56,7 @@ type C05Scenario struct {
 	Index   int    `json:"index"`             // index of the site in the module's site list
 	Cross   bool   `json:"cross,omitempty"`   // redirect to Site.Alt (a name defined in another namespace) instead of a fresh name
 	Numeric bool   `json:"numeric,omitempty"` // redirect to Site.Num (an unnamed ID just past the last possible one)
+	Near    int    `json:"near,omitempty"`    // 1: the original name with one character appended, 2: with its last character dropped (both checked to be undefined)
 	Site    Site   `json:"site"`
 	Orders  int    `json:"orders"`     // number of seeded translation orders besides the canonical one
 	Seed    uint64 `json:"order_seed"` // seed of those orders
@@ -245,11 +246,72 @@ func (w *siteWalker) walk(n *ast.Node, parent *ast.Node, idxInParent int, sameTy
 		}
 	case ll.MetadataDef:
 		w.dupEntity("dup:metadata id", n)
+	}
+	// Cross-kind duplicates: the same global name defined again by an entity of
+	// another kind.
+	switch n.Type() {
+	case ll.FuncDecl, ll.FuncDef:
+		if hdr := n.Child(selector.FuncHeader); hdr != nil {
+			if name := hdr.Child(selector.GlobalIdent); name != nil && !isUnnamedIdent(name.Text()) {
+				w.sites = append(w.sites, Site{Kind: "dup:global variable with the name of a function", Off: n.Offset(), End: n.Endoffset(), Text: name.Text(), InsertAt: n.Endoffset(), Insert: "\n" + name.Text() + " = global i32 0\n"})
+			}
+		}
+	case ll.GlobalDecl:
+		if name := n.Child(selector.GlobalIdent); name != nil && !isUnnamedIdent(name.Text()) {
+			w.sites = append(w.sites, Site{Kind: "dup:function declaration with the name of a global variable", Off: n.Offset(), End: n.Endoffset(), Text: name.Text(), InsertAt: n.Endoffset(), Insert: "\ndeclare void " + name.Text() + "()\n"})
+		}
+	case ll.IndirectSymbolDef:
+		if name := n.Child(selector.GlobalIdent); name != nil && !isUnnamedIdent(name.Text()) {
+			w.sites = append(w.sites, Site{Kind: "dup:global variable with the name of an alias/ifunc", Off: n.Offset(), End: n.Endoffset(), Text: name.Text(), InsertAt: n.Endoffset(), Insert: "\n" + name.Text() + " = global i32 0\n"})
+		}
 	case ll.LocalDefInst:
 		if name := n.Child(selector.LocalIdent); name != nil && !isUnnamedIdent(name.Text()) {
 			w.sites = append(w.sites, Site{Kind: "dup:local", Off: n.Offset(), End: n.Endoffset(), Text: n.Text(), InsertAt: n.Endoffset(), Insert: "\n\t" + n.Text()})
 		}
 	case ll.FuncBody:
+		// A named instruction whose result is used nowhere, renamed to the name of
+		// a parameter or of a block of the same function (locals, parameters and
+		// labels share one namespace).
+		if parent != nil && parent.Type() == ll.FuncDef {
+			fnText := parent.Text()
+			var paramName, labelName string
+			if hdr := parent.Child(selector.FuncHeader); hdr != nil {
+				if ps := hdr.Child(selector.Params); ps != nil {
+					for _, p := range ps.Children(selector.Param) {
+						if id := p.Child(selector.LocalIdent); id != nil && !isUnnamedIdent(id.Text()) && paramName == "" {
+							paramName = id.Text()
+						}
+					}
+				}
+			}
+			for _, bb := range n.Children(selector.BasicBlock) {
+				if lbl := bb.Child(selector.LabelIdent); lbl != nil && labelName == "" {
+					t := strings.TrimSuffix(lbl.Text(), ":")
+					if !isUnnamedIdent("%"+t) && !strings.ContainsAny(t, "\"\\ ") {
+						labelName = "%" + t
+					}
+				}
+			}
+			done := false
+			for _, bb := range n.Children(selector.BasicBlock) {
+				for _, c := range nodeKids(bb) {
+					if c.Type() != ll.LocalDefInst || done {
+						continue
+					}
+					id := c.Child(selector.LocalIdent)
+					if id == nil || isUnnamedIdent(id.Text()) || countIdent(fnText, id.Text()) != 1 {
+						continue
+					}
+					if paramName != "" && paramName != id.Text() {
+						w.sites = append(w.sites, Site{Kind: "dup:local (instruction renamed to a parameter's name)", Off: id.Offset(), End: id.Endoffset(), Text: id.Text(), Replace: paramName})
+					}
+					if labelName != "" && labelName != id.Text() {
+						w.sites = append(w.sites, Site{Kind: "dup:local (instruction renamed to a block's name)", Off: id.Offset(), End: id.Endoffset(), Text: id.Text(), Replace: labelName})
+					}
+					done = true
+				}
+			}
+		}
 		// A named value-producing terminator (invoke) given the name of an
 		// earlier named instruction of the same function.
 		var firstInst *ast.Node
@@ -411,7 +473,38 @@ func freshIdent(text, old string) string {
 }
 
 // applyFault returns the faulted text.
+// nearMiss returns a name that differs from the identifier old by one trailing
+// character and occurs nowhere in text ("" if there is none).
+func nearMiss(text, old string, mode int) string {
+	if len(old) < 3 || isUnnamedIdent(old) || strings.ContainsAny(old, "\"\\") || old[0] == '!' {
+		return ""
+	}
+	var cand string
+	if mode == 1 {
+		cand = old + "x"
+	} else {
+		cand = old[:len(old)-1]
+		if len(cand) < 2 || isUnnamedIdent(cand) {
+			return ""
+		}
+	}
+	// Undefined everywhere: neither the identifier nor a label spelling of it occurs.
+	if countIdent(text, cand) > 0 || strings.Contains(text, "\n"+cand[1:]+":") {
+		return ""
+	}
+	return cand
+}
+
 func applyFault(text string, s Site, cross, numeric bool) string {
+	return applyFaultNear(text, s, cross, numeric, 0)
+}
+
+func applyFaultNear(text string, s Site, cross, numeric bool, near int) string {
+	if near > 0 && strings.HasPrefix(s.Kind, "use:") {
+		if nm := nearMiss(text, text[s.Off:s.End], near); nm != "" {
+			return text[:s.Off] + nm + text[s.End:]
+		}
+	}
 	switch {
 	case strings.HasPrefix(s.Kind, "use:"):
 		if numeric && s.Num != "" {
@@ -479,7 +572,7 @@ func c05Run(sc *C05Scenario) *c05Outcome {
 		out.skip = "site does not fit the module text (stale replay file)"
 		return out
 	}
-	faulted := applyFault(text, sc.Site, sc.Cross, sc.Numeric)
+	faulted := applyFaultNear(text, sc.Site, sc.Cross, sc.Numeric, sc.Near)
 	if _, err := ast.Parse(sc.Module, faulted); err != nil {
 		out.skip = "faulted text is not accepted by the grammar (site discarded)"
 		return out
@@ -578,15 +671,22 @@ func c05Search() {
 				sum.Skipped["sites not sampled in the quick tier"]++
 				continue
 			}
-			for variant := 0; variant < 3; variant++ {
+			for variant := 0; variant < 5; variant++ {
 				cross, numeric := variant == 1, variant == 2
+				near := 0
+				if variant >= 3 {
+					near = variant - 2
+					if !strings.HasPrefix(s.Kind, "use:") || nearMiss(cf.Text, cf.Text[s.Off:s.End], near) == "" {
+						continue
+					}
+				}
 				if cross && (s.Alt == "" || !strings.HasPrefix(s.Kind, "use:")) {
 					continue
 				}
 				if numeric && (s.Num == "" || !strings.HasPrefix(s.Kind, "use:") || s.Num == s.Text) {
 					continue
 				}
-				sc := &C05Scenario{Module: cf.Name, Index: i, Site: s, Cross: cross, Numeric: numeric, Orders: orders, Seed: derive(*flagSeed, fmt.Sprintf("C05/%s/%d", cf.Name, i))}
+				sc := &C05Scenario{Module: cf.Name, Index: i, Site: s, Cross: cross, Numeric: numeric, Near: near, Orders: orders, Seed: derive(*flagSeed, fmt.Sprintf("C05/%s/%d", cf.Name, i))}
 				curScenario = sc
 				o := c05Run(sc)
 				if o.skip != "" {
@@ -600,6 +700,9 @@ func c05Search() {
 				}
 				if numeric {
 					sum.Counters["faulted inputs redirected to an unnamed ID just past the last possible one"]++
+				}
+				if near > 0 {
+					sum.Counters["faulted inputs redirected to a one-character near miss of the original name"]++
 				}
 				sum.Counters["fault kind "+siteClass(s.Kind)]++
 				sum.Counters["map-range visits in non-canonical order"] += o.nonIdentity
